@@ -61,6 +61,8 @@ type World struct {
 	// another property is counted (class "other:<id>") and left to that property's check.
 	Focus   map[string]bool
 	inCheck bool
+	// PreOpen: the first PreOpen concurrent writers of runWriters use a controller chain opened before the run
+	PreOpen int
 }
 
 // V reports a violation of property code. A discrepancy that several properties forbid is given as
